@@ -8,7 +8,7 @@ from vf.common import Check
 from vf.eqsmt import to_z3, Untranslatable, Decider, val_fraction
 from vf.par import pmap
 import sfc_models.utils as U
-from sfc_models.equation import Equation
+from sfc_models.equation import Equation, Term, EquationBlock
 from sfc_models.utils import LogicError
 
 NAMES = ['x', 'xx', 'x1', '_x', 'x_', 'e', 'j', 'k']
@@ -139,6 +139,22 @@ def chunk_work(chunk):
                     res['bad'].append(('Equation.ReplaceTokensFromLookup', e, mp, eout, 'output does not parse'))
                 except Untranslatable:
                     res['untranslatable'] += 1
+            # one Term object (the documented way to hand a term around) copied into two equations of a block, then the whole block renamed:
+            # every copy must be renamed
+            if eout is not None and all(t.isidentifier() for t in mp.values()) and not merges(before, mp):
+                try:
+                    t0 = Term(e)
+                    blk = EquationBlock()
+                    q1 = Equation('first', '', [t0]); q2 = Equation('second', '', [t0, Term('zz_other')]); q3 = Equation('third', '', [Term(t0)])
+                    for q in (q1, q2, q3):
+                        blk.AddEquation(q)
+                    blk.ReplaceTokensFromLookup(mp)
+                    r1, r2, r3 = blk['first'].RHS(), blk['second'].RHS(), blk['third'].RHS()
+                    res['tok'] += 1
+                    if src_names(r1) != src_names(r3) or src_names(r2)[:len(src_names(r1))] != src_names(r1):
+                        res['bad'].append(('EquationBlock.ReplaceTokensFromLookup(shared Term)', e, mp, '%s | %s | %s' % (r1, r2, r3), 'copies of one term renamed differently'))
+                except (LogicError, SyntaxError, NotImplementedError, ValueError):
+                    pass
             outs.append(('replace_token_from_lookup', U.replace_token_from_lookup(e, mp)))
             if len(mp) == 1:
                 (k, v), = mp.items()
@@ -178,15 +194,24 @@ def chunk_work(chunk):
 REPLAY = '''
 import sys, ast
 import sfc_models.utils as U
-from sfc_models.equation import Equation
+from sfc_models.equation import Equation, Term, EquationBlock
 from sfc_models.utils import LogicError
 fn, e, mp = %(fn)r, %(e)r, %(mp)r
 if fn == 'list_tokens':
     from vf.props.c13 import src_names
     got = U.list_tokens(e); want = src_names(e)
     print('list_tokens(%%r) = %%r, name tokens in order of appearance: %%r' %% (e, got, want)); sys.exit(1 if got != want else 0)
+if fn.startswith('EquationBlock'):
+    from sfc_models.equation import Equation, Term, EquationBlock
+    t0 = Term(e); blk = EquationBlock()
+    for q in (Equation('first', '', [t0]), Equation('second', '', [t0, Term('zz_other')]), Equation('third', '', [Term(t0)])): blk.AddEquation(q)
+    blk.ReplaceTokensFromLookup(mp)
+    r1, r2, r3 = blk['first'].RHS(), blk['second'].RHS(), blk['third'].RHS()
+    print('one term %%r in three equations renamed by %%r -> %%r | %%r | %%r' %% (e, mp, r1, r2, r3))
+    from vf.props.c13 import src_names
+    sys.exit(1 if (src_names(r1) != src_names(r3) or src_names(r2)[:len(src_names(r1))] != src_names(r1)) else 0)
 if fn == 'Equation.ReplaceTokensFromLookup':
-    from sfc_models.equation import Equation
+    from sfc_models.equation import Equation, Term, EquationBlock
     eq = Equation('lhs', '', e); e = eq.RHS(); eq.ReplaceTokensFromLookup(mp); out = eq.RHS()
 else:
     out = U.replace_token_from_lookup(e, mp) if fn == 'replace_token_from_lookup' else U.replace_token(e, *list(mp.items())[0])
